@@ -6026,8 +6026,10 @@ class FlowIRConcrete(object):
         return ret
 
     def invalidate_cache_for_component(self, comp_id):
+        # VV: The name of the component is text, not a regular expression: it must match itself even if it
+        #     contains characters such as `+` or `(`
         self._cache.invalidate_reg_expression(r'component:.*:stage%s:%s' % (
-            comp_id[0], comp_id[1]))
+            comp_id[0], re.escape(str(comp_id[1]))))
 
     def update_component(self, comp_id, new_flowir):
         # type: (FlowIRComponentId, DictFlowIRComponent) -> None
@@ -6057,7 +6059,7 @@ class FlowIRConcrete(object):
         if return_copy:
             return deep_copy(component)
 
-        self._cache.invalidate_reg_expression(r"component:.*:stage%s:%s" % (comp_id[0], comp_id[1]))
+        self.invalidate_cache_for_component(comp_id)
         return component
 
     def delete_component(self, comp_id, ignore_errors=False):
@@ -6082,9 +6084,7 @@ class FlowIRConcrete(object):
             except KeyError:
                 pass
 
-            self._cache.invalidate_reg_expression(r'component:.*:stage%s:%s' % (
-                comp['stage'], comp['name']
-            ))
+            self.invalidate_cache_for_component((comp['stage'], comp['name']))
         except:
             if ignore_errors is False:
                 raise
